@@ -47,8 +47,8 @@ type bechRow struct {
 // tables are the decision tables TLC emitted.
 type tables struct {
 	w       *world
-	bech    map[string]bechRow  // key: bechKey without prefix
-	b58     map[string]decision // key: b58Key + default network
+	bech    map[string]bechRow // key: bechKey without prefix
+	b58     map[string]bechRow // key: b58Key + default network
 	pkhex   map[string]decision
 	b58ids  map[int]bool
 	b58lens map[int]bool
@@ -63,14 +63,14 @@ func bechKey(a bechAbs) string {
 	return fmt.Sprintf("%s|%s|%s|%d|%d|%t|%t", a.Defect, a.Case, a.Ck, a.Ver, a.Ng, a.PadZero, a.Anchor)
 }
 func b58Key(a b58Abs, dn string) string {
-	return fmt.Sprintf("%s|%s|%d|%d|%s", a.Defect, a.Ck, a.V, a.Plen, dn)
+	return fmt.Sprintf("%s|%s|%d|%d|%t|%s", a.Defect, a.Ck, a.V, a.Plen, a.SegPrefix, dn)
 }
 func pkhexKey(a pkHexAbs, dn string) string {
 	return fmt.Sprintf("%d|%t|%d|%t|%t|%s", a.NChars, a.HexOK, a.Prefix, a.OnCurve, a.Parity, dn)
 }
 
 func newTables(w *world) *tables {
-	return &tables{w: w, bech: map[string]bechRow{}, b58: map[string]decision{}, pkhex: map[string]decision{},
+	return &tables{w: w, bech: map[string]bechRow{}, b58: map[string]bechRow{}, pkhex: map[string]decision{},
 		b58ids: map[int]bool{}, b58lens: map[int]bool{}}
 }
 
@@ -94,13 +94,11 @@ func (t *tables) load(cases []rawCase) error {
 				S  b58Abs `json:"s"`
 				Dn string `json:"dn"`
 			}
-			var ex struct {
-				D decision `json:"d"`
-			}
+			var ex bechRow
 			if err := rc.decode(&cs, &ex); err != nil {
 				return err
 			}
-			t.b58[b58Key(cs.S, cs.Dn)] = ex.D
+			t.b58[b58Key(cs.S, cs.Dn)] = ex
 			if cs.S.Defect == "none" {
 				if cs.S.V >= 0 {
 					t.b58ids[cs.S.V] = true
@@ -129,11 +127,15 @@ func (t *tables) load(cases []rawCase) error {
 
 // abstraction of an arbitrary string
 type absString struct {
-	form    string
+	form    string // the form the dispatch of DecodeAddress selects
 	bech    bechAbs
 	b58     b58Abs
 	pkhex   pkHexAbs
 	payload []byte
+	// a string of the bech32 form read as Base58Check (base-58 uses the same
+	// letters): its attributes and payload
+	alt        *b58Abs
+	altPayload []byte
 }
 
 func (t *tables) abstract(s string) absString {
@@ -141,12 +143,26 @@ func (t *tables) abstract(s string) absString {
 	switch a.form {
 	case "bech":
 		a.bech, a.payload = abstractBech(s)
+		if alt, pl := abstractB58(s, t.b58ids, true); alt.Defect == "none" && alt.Ck == "ok" {
+			a.alt, a.altPayload = &alt, pl
+		}
 	case "pkhex":
 		a.pkhex, a.payload = abstractPkHex(s)
 	default:
-		a.b58, a.payload = abstractB58(s, t.b58ids)
+		a.b58, a.payload = abstractB58(s, t.b58ids, false)
 	}
 	return a
+}
+
+func (t *tables) canonB58(k b58Abs) b58Abs {
+	if k.Defect == "none" && !t.b58lens[k.Plen] { // CanonB58
+		if k.Plen > 20 {
+			k.Plen = 40
+		} else {
+			k.Plen = 0
+		}
+	}
+	return k
 }
 
 // lookup returns the property-layer and implementation-layer decisions of the
@@ -154,6 +170,13 @@ func (t *tables) abstract(s string) absString {
 func (t *tables) lookup(a absString, dn string) (d, impl decision, err error) {
 	switch a.form {
 	case "bech":
+		if a.alt != nil {
+			// the text is also a Base58Check string with a valid checksum: if that
+			// reading is an address, the property wants it accepted
+			if row, ok := t.b58[b58Key(t.canonB58(*a.alt), dn)]; ok && row.D.Accept {
+				return row.D, row.Impl, nil
+			}
+		}
 		k := a.bech
 		if k.Case == "upper" && !t.hasUp {
 			k.Case = "lower" // BechLaws: the upper-case form decides the same
@@ -189,24 +212,17 @@ func (t *tables) lookup(a absString, dn string) (d, impl decision, err error) {
 		}
 		return row, row, nil
 	default:
-		k := a.b58
-		if k.Defect == "none" && !t.b58lens[k.Plen] { // CanonB58
-			if k.Plen > 20 {
-				k.Plen = 40
-			} else {
-				k.Plen = 0
-			}
-		}
-		row, ok := t.b58[b58Key(k, dn)]
+		row, ok := t.b58[b58Key(t.canonB58(a.b58), dn)]
 		if !ok {
 			return d, impl, fmt.Errorf("no row for abstract base58 string %+v under %s", a.b58, dn)
 		}
-		return row, row, nil
+		return row.D, row.Impl, nil
 	}
 }
 
 // observed is what DecodeAddress answered, in the vocabulary of the decisions.
 type observed struct {
+	panicked string
 	d       decision
 	addr    address.Address
 	payload []byte
@@ -233,13 +249,28 @@ func kindOfAddress(a address.Address) string {
 	return fmt.Sprintf("%T", a)
 }
 
-func (t *tables) observe(s, dn string) observed {
+// safely runs f; a panic inside the code under test is returned as text.
+func safely(f func()) (panicked string) {
+	defer func() {
+		if r := recover(); r != nil {
+			panicked = fmt.Sprint(r)
+		}
+	}()
+	f()
+	return ""
+}
+
+func (t *tables) observe(s, dn string) (o observed) {
 	p := t.w.params[dn]
-	a, err := address.DecodeAddress(s, p)
+	var a address.Address
+	var err error
+	if pn := safely(func() { a, err = address.DecodeAddress(s, p) }); pn != "" {
+		return observed{panicked: pn}
+	}
 	if err != nil || a == nil {
 		return observed{}
 	}
-	o := observed{addr: a, payload: a.ScriptAddress(), reenc: a.EncodeAddress()}
+	o = observed{addr: a, payload: a.ScriptAddress(), reenc: a.EncodeAddress()}
 	o.d.Accept = true
 	o.d.Kind = kindOfAddress(a)
 	for _, n := range t.w.names {
@@ -313,6 +344,9 @@ func agrees(o observed, d decision, s string, a absString, strict bool) (bool, s
 		if o.d.V != d.V {
 			return false, fmt.Sprintf("address carries identifier %d, specification: %d", o.d.V, d.V)
 		}
+		if a.form == "bech" {
+			a.payload = a.altPayload
+		}
 		if !bytes.Equal(o.payload, a.payload) {
 			return false, fmt.Sprintf("decoded hash %x differs from the string's payload %x", o.payload, a.payload)
 		}
@@ -349,6 +383,7 @@ func agrees(o observed, d decision, s string, a absString, strict bool) (bool, s
 }
 
 const keyV1Len20 = "decode:v1-program20-returned-as-v0-p2wpkh"
+const keyB58SegPrefix = "decode:base58-address-starting-like-a-segwit-prefix-rejected"
 
 // checkDecode offers s to DecodeAddress under default network dn and compares
 // with the specification's table.  what describes where s came from (for the
@@ -361,13 +396,21 @@ func (t *tables) checkDecode(c *vrun.Ctx, s, dn, shape, what string, replay any)
 	}
 	o := t.observe(s, dn)
 	c.AddEval(1)
+	if o.panicked != "" {
+		c.Violation("decode:"+shape+":panic", fmt.Sprintf("DecodeAddress(%q, %s) [%s] panics: %s", s, dn, what, o.panicked),
+			map[string]any{"string": s, "default_net": dn, "origin": what, "case": replay})
+		return a, o, nil
+	}
 	t.mu.Lock()
 	t.lookups++
 	t.mu.Unlock()
 	if ok, why := agrees(o, d, s, a, true); !ok {
 		rp := map[string]any{"string": s, "default_net": dn, "origin": what, "abstract": a.describe(), "specification": d.String(),
 			"decoder": o.d.String(), "case": replay}
-		if okImpl, _ := agrees(o, impl, s, a, false); okImpl && a.form == "bech" && a.bech.Ver == 1 && d.String() != impl.String() {
+		if okImpl, _ := agrees(o, impl, s, a, false); okImpl && a.form == "bech" && a.alt != nil && d.Accept && !impl.Accept {
+			c.Violation(keyB58SegPrefix, fmt.Sprintf("DecodeAddress(%q, %s): %s (a valid Base58Check %s address whose text begins with the registered segwit prefix %q followed by its only later '1' is handed to the bech32 decoder and refused)",
+				s, dn, why, d.Kind, s[:strings.LastIndexByte(s, '1')]), rp)
+		} else if okImpl && a.form == "bech" && a.bech.Ver == 1 && d.String() != impl.String() {
 			c.Violation(keyV1Len20, fmt.Sprintf("DecodeAddress(%q): %s (bech32m string of a witness v1 program of 20 bytes comes back as a v0 P2WPKH address, which encodes to a different string and pays to a different script)", s, why), rp)
 		} else {
 			c.Violation("decode:"+shape+":"+divergence(o.d, d), fmt.Sprintf("DecodeAddress(%q, %s) [%s]: %s", s, dn, what, why), rp)
@@ -389,6 +432,9 @@ func divergence(got, want decision) string {
 func (a absString) describe() any {
 	switch a.form {
 	case "bech":
+		if a.alt != nil {
+			return map[string]any{"form": "bech", "s": a.bech, "as_base58check": *a.alt}
+		}
 		return map[string]any{"form": "bech", "s": a.bech}
 	case "pkhex":
 		return map[string]any{"form": "pkhex", "s": a.pkhex}
